@@ -139,6 +139,8 @@ def compare(observed, expected):
         if obs != want:
             errs.append(((), obs, want))
         return errs
+    if kind == "any":
+        return errs
     if kind == "oneof":
         if obs not in v:
             errs.append(((), obs, v))
